@@ -36,7 +36,13 @@ Definition is_unrawable (s : string) : bool := mem s generator_unrawable.
    ident_name = strip_prefix("r#"); type_ident = escape_ident(PascalCase) *)
 Definition escape_ident (s : string) : string :=
   if is_unrawable s then s ++ "_" else if is_rust_keyword s then "r#" ++ s else s.
-Definition type_ident (n : string) : string := escape_ident (to_pascal_case n).
+(* since the repair of C15.prelude_type_name_capture: a custom type whose identifier is the name of an
+   item the generated code refers to without a path (fn is_used_unqualified; the list is translated
+   from the source) gets a trailing underscore *)
+Definition is_used_unqualified (s : string) : bool := mem s generator_unqualified.
+Definition type_ident (n : string) : string :=
+  let i := escape_ident (to_pascal_case n) in
+  if is_used_unqualified i then i ++ "_" else i.
 
 (* fn type_to_rust *)
 Fixpoint type_to_rust (t : idl_ty) : string :=
